@@ -250,9 +250,9 @@ impl C16 {
         let bad: &[(&str, &[&str])] = &[
             ("volume", &["256", "-1", "abc", "1.5", ""]),
             ("state", &["playing", "Play", "2", "", "stopped"]),
-            ("repeat", &["2", "true", "", "-1", "on"]),
-            ("random", &["2", "yes", ""]),
-            ("consume", &["2", "x", ""]),
+            ("repeat", &["2", "true", "", "-1", "on", "01", "+1", "00", "+0", "001", " 1", "1 ", "1.0", "256", "257"]),
+            ("random", &["2", "yes", "", "01", "+1", "00", "+0", "10"]),
+            ("consume", &["2", "x", "", "01", "+1", "00", "+0", "0x1"]),
             ("single", &["2", "Oneshot", "", "true"]),
             ("playlist", &["4294967296", "-1", "x", "1.0"]),
             ("playlistlength", &["-1", "18446744073709551616", "x"]),
@@ -271,6 +271,19 @@ impl C16 {
                 let ff = replace(&f, k, v);
                 cx.must_err("status", &ff, &format!("{}: {:?}", k, v), |fr| c::Status.response(fr));
             }
+        }
+        // the capitalised `Time: elapsed:total` pair the crate accepts in place of a missing `duration`: anything that is
+        // not a pair of two numbers is outside its domain; the pair itself may be used or ignored, but not misread
+        let mut nod: Vec<(String, String)> = f.iter().filter(|(k, _)| k != "duration").cloned().collect();
+        nod.push(kv("Time", "31:240"));
+        cx.decode("status", &nod, |fr| c::Status.response(fr), |s| match s.duration {
+            None => Ok(()),
+            Some(d) if d == Duration::from_secs(240) => Ok(()),
+            Some(d) => Err(format!("`Time: 31:240` without `duration` decoded as duration {:?}", d)),
+        });
+        for v in ["240", "240.5", "1:2:3", "a:b:7", "31:", ":", "", "31:abc", "31:-5", "31-240"] {
+            let ff = replace(&nod, "Time", v);
+            cx.must_err("status", &ff, &format!("Time: {:?} (no duration field)", v), |fr| c::Status.response(fr));
         }
         // song without songid
         let mut ff = f.clone();
